@@ -397,8 +397,10 @@ class Agent(dbus.service.Object):
         :param ctr: The bundle container to send.
         '''
         ctr.reload()
-        if 'receive' not in ctr.actions:
-            # defaults are only for locally originated bundles
+        is_fragment = bool(ctr.bundle.primary.bundle_flags & PrimaryBlock.Flag.IS_FRAGMENT)
+        if 'receive' not in ctr.actions and not is_fragment:
+            # defaults are only for locally originated bundles,
+            # a fragment keeps the identity of the bundle it came from
             self._apply_primary(ctr)
         ctr.fix_block_num()
         ctr.bundle.fill_fields()
